@@ -31,7 +31,10 @@ def it(name, **kw):
 PARTS = [
     Raw('#![feature(allocator_api)]\nuse vstd::prelude::*;\nuse vstd::string::*;\nuse std::collections::VecDeque;\nverus! {'),
     Prelude('small.prelude.rs'),
-    Prelude('bq.prelude.rs'),
+    Prelude('std.prelude.rs'),
+    Prelude('cells.prelude.rs'),
+    Prelude('tendril.prelude.rs'),
+    Prelude('bqspec.prelude.rs'),
     Item(F, 'enum', 'SetResult'),
     Raw('pub use SetResult::{FromSet, NotFromSet};'),
     Item(F, 'struct', 'BufferQueue'),
